@@ -383,6 +383,40 @@ impl GraphInline {
         }
     }
 
+    /// The inline as it is written in a note of the directory `parent`: a link to a note holds
+    /// the key of the note, it is written relative to the linking note like a block reference.
+    pub fn relative_to(&self, parent: &str) -> GraphInline {
+        let relative = |inlines: &GraphInlines| -> GraphInlines {
+            inlines
+                .iter()
+                .map(|inline| inline.relative_to(parent))
+                .collect()
+        };
+        match self {
+            GraphInline::Emph(inlines) => GraphInline::Emph(relative(inlines)),
+            GraphInline::Strong(inlines) => GraphInline::Strong(relative(inlines)),
+            GraphInline::Underline(inlines) => GraphInline::Underline(relative(inlines)),
+            GraphInline::Strikeout(inlines) => GraphInline::Strikeout(relative(inlines)),
+            GraphInline::Superscript(inlines) => GraphInline::Superscript(relative(inlines)),
+            GraphInline::Subscript(inlines) => GraphInline::Subscript(relative(inlines)),
+            GraphInline::SmallCaps(inlines) => GraphInline::SmallCaps(relative(inlines)),
+            GraphInline::Image(url, title, inlines) => {
+                GraphInline::Image(url.clone(), title.clone(), relative(inlines))
+            }
+            GraphInline::Link(url, title, link_type, inlines) => GraphInline::Link(
+                if self.is_ref() {
+                    Key::name(url).to_rel_link_url(parent)
+                } else {
+                    url.clone()
+                },
+                title.clone(),
+                *link_type,
+                relative(inlines),
+            ),
+            _ => self.clone(),
+        }
+    }
+
     pub fn is_ref(&self) -> bool {
         match self {
             GraphInline::Link(url, _, _, _) => model::is_ref_url(url),
